@@ -15,9 +15,9 @@ Answer key: `is_black` (height x width, row-major); True = shaded.
 import itertools
 
 NAME = "lits"
-STATUS = "differential only"
+STATUS = "model+differential"
 THEOREMS = []
-LEAN_CMD = None
+LEAN_CMD = "puz_lits"
 
 _SIZES = [(1, 4), (4, 1), (2, 2), (2, 3), (3, 2), (2, 4), (4, 2), (3, 3), (3, 4), (4, 3), (3, 4), (4, 3), (2, 5), (5, 2),
           (2, 6), (6, 2), (3, 5), (5, 3), (4, 4)]
@@ -140,3 +140,8 @@ def rule_check(problem, answer):
             if q in black and region[q] != region[(y, x)] and shapes[region[q]] == shapes[region[(y, x)]]:
                 return False
     return True
+
+
+def lean_line(problem):
+    rooms = " ".join("(" + " ".join("(%d %d)" % (y, x) for y, x in b) + ")" for b in problem["blocks"])
+    return "(puz_lits %d %d (%s))" % (problem["height"], problem["width"], rooms)
